@@ -28,6 +28,7 @@ CONSTANTS
   WPropose = 30
   WCommit = 35
   WApp = 15
+  LateBias = 3
   WStore = 10
 INVARIANT EmitAtDepth
 CHECK_DEADLOCK FALSE
